@@ -2055,4 +2055,175 @@ theorem instrAt (d : Nat) : InstrAt d := by
         | depthExceeded => simp
         | panic s => simp
 
+
+/-! ## The rejection is the depth error -/
+
+theorem seqWith_reject {f g : List Nat → Except DErr (MVal × List Nat)} {m : Nat} {E : DErr}
+    (hok : ∀ bs v r, f bs = .ok (v, r) → v.nesting ≤ m → g bs = .ok (v, r))
+    (hrej : ∀ bs v r, f bs = .ok (v, r) → m < v.nesting → g bs = .error E) :
+    ∀ n bs vs r, seqWith f n bs = .ok (vs, r) → m < nestingList vs →
+      seqWith g n bs = .error E := by
+  intro n
+  induction n with
+  | zero =>
+    intro bs vs r h hm
+    simp only [seqWith] at h
+    injection h with h; injection h with h1 _; subst h1
+    simp [nestingList] at hm
+  | succ n ih =>
+    intro bs vs r h hm
+    simp only [seqWith] at h
+    split at h
+    · cases h
+    · rename_i v r1 h1
+      split at h
+      · cases h
+      · rename_i vs' r2 h2
+        injection h with h; injection h with h3 h4; subst h3; subst h4
+        simp only [nestingList] at hm
+        by_cases hv : v.nesting ≤ m
+        · simp only [seqWith, hok _ _ _ h1 hv, ih _ _ _ h2 (by omega)]
+        · simp only [seqWith, hrej _ _ _ h1 (by omega)]
+
+theorem pairsWith_reject {f g : List Nat → Except DErr (MVal × List Nat)} {m : Nat} {E : DErr}
+    (hok : ∀ bs v r, f bs = .ok (v, r) → v.nesting ≤ m → g bs = .ok (v, r))
+    (hrej : ∀ bs v r, f bs = .ok (v, r) → m < v.nesting → g bs = .error E) :
+    ∀ n bs kvs r, pairsWith f n bs = .ok (kvs, r) → m < nestingPairs kvs →
+      pairsWith g n bs = .error E := by
+  intro n
+  induction n with
+  | zero =>
+    intro bs vs r h hm
+    simp only [pairsWith] at h
+    injection h with h; injection h with h1 _; subst h1
+    simp [nestingPairs] at hm
+  | succ n ih =>
+    intro bs vs r h hm
+    simp only [pairsWith] at h
+    split at h
+    · cases h
+    · rename_i k r1 h1
+      split at h
+      · cases h
+      · rename_i v r2 h2
+        split at h
+        · cases h
+        · rename_i kvs r3 h3
+          injection h with h; injection h with h4 h5; subst h4; subst h5
+          simp only [nestingPairs] at hm
+          by_cases hk : k.nesting ≤ m
+          · by_cases hv : v.nesting ≤ m
+            · simp only [pairsWith, hok _ _ _ h1 hk, hok _ _ _ h2 hv, ih _ _ _ h3 (by omega)]
+            · simp only [pairsWith, hok _ _ _ h1 hk, hrej _ _ _ h2 (by omega)]
+          · simp only [pairsWith, hrej _ _ _ h1 (by omega)]
+
+/-- If `bs` starts with a spelling of a value that does not nest within `d`
+(`d ≥ 1`), the decoder with counter `d` fails with exactly `DepthLimitExceeded`:
+everything before the first too-deep collection decodes as before, so no
+other error can come first. -/
+theorem decode_rejects_with_depth (ext : Bool) (d' : Nat) :
+    ∀ d bs v rest, 1 ≤ d → decodeG ext d' bs = .ok (v, rest) → ¬ v.Within d →
+      decodeG ext d bs = .error .depthLimitExceeded := by
+  induction d' using Nat.strongRecOn with
+  | _ d' ih =>
+    intro d bs v rest hd h hw
+    have hflat : v.nesting ≠ 0 ∧ d ≤ v.nesting := by unfold MVal.Within at hw; omega
+    obtain ⟨e, rfl⟩ : ∃ e, d = e + 1 := ⟨d - 1, by omega⟩
+    have hw0 := decode_within ext d' _ _ _ h
+    unfold decodeG at h
+    split at h
+    · cases h
+    · rename_i b t
+      split at h
+      · cases h
+      · -- scalar
+        rename_i v' r hh
+        exfalso
+        have h0 : v.nesting = 0 := by
+          have := decode_within ext 0 (b :: t) v rest (by unfold decodeG; simp only [hh]; exact h)
+          unfold MVal.Within at this; omega
+        exact hflat.1 h0
+      · rename_i len r hh
+        exfalso
+        split at h
+        · cases h
+        · injection h with h; injection h with h1 _; subst h1
+          apply hflat.1; split <;> rfl
+      · rename_i len r hh
+        exfalso
+        split at h
+        · cases h
+        · injection h with h; injection h with h1 _; subst h1
+          exact hflat.1 rfl
+      · rename_i len r hh
+        split at h
+        · cases h
+        · split at h
+          · cases h
+          · split at h
+            · split at h
+              · cases h
+              · split at h
+                · cases h
+                · injection h with h; injection h with h1 _; subst h1
+                  have : e = 0 := by have := hflat.2; simp only [MVal.nesting] at this; omega
+                  subst this
+                  unfold decodeG; simp only [hh, ↓reduceIte]
+            · cases h
+      · rename_i count r hh
+        split at h
+        · cases h
+        · rename_i e'
+          split at h
+          · cases h
+          · rename_i hd'
+            split at h
+            · cases h
+            · rename_i vs r' hs
+              injection h with h; injection h with h1 _; subst h1
+              have hn := hflat.2
+              simp only [MVal.nesting] at hn
+              by_cases he : e = 0
+              · subst he; unfold decodeG; simp only [hh, ↓reduceIte]
+              · have hs' := seqWith_reject (g := decodeG ext e) (m := e - 1) (E := .depthLimitExceeded)
+                  (fun bs v r hv hm =>
+                    decode_depth_irrelevant ext e' e bs v r hv (by left; omega))
+                  (fun bs v r hv hm =>
+                    ih e' (by omega) e bs v r (by omega) hv (by unfold MVal.Within; omega))
+                  _ _ _ _ hs (by omega)
+                unfold decodeG; simp only [hh, he, hs', ↓reduceIte]
+      · rename_i count r hh
+        split at h
+        · cases h
+        · rename_i e'
+          split at h
+          · cases h
+          · rename_i hd'
+            split at h
+            · cases h
+            · rename_i kvs r' hs
+              injection h with h; injection h with h1 _; subst h1
+              have hn := hflat.2
+              simp only [MVal.nesting] at hn
+              by_cases he : e = 0
+              · subst he; unfold decodeG; simp only [hh, ↓reduceIte]
+              · have hs' := pairsWith_reject (g := decodeG ext e) (m := e - 1) (E := .depthLimitExceeded)
+                  (fun bs v r hv hm =>
+                    decode_depth_irrelevant ext e' e bs v r hv (by left; omega))
+                  (fun bs v r hv hm =>
+                    ih e' (by omega) e bs v r (by omega) hv (by unfold MVal.Within; omega))
+                  _ _ _ _ hs (by omega)
+                unfold decodeG; simp only [hh, he, hs', ↓reduceIte]
+
+/-- `reject_beyond` with the exact cause: the decoder's error is
+`DepthLimitExceeded`, and that is the reader loop's verdict. -/
+theorem reject_beyond_depth (ext : Bool) (D : Nat) (hD : 1 ≤ D) {bs : List Nat} {v : MVal}
+    {d' : Nat} {rest : List Nat} (hsp : decodeG ext d' bs = .ok (v, rest)) (hn : ¬ v.Within D) :
+    decodeG ext D bs = .error .depthLimitExceeded ∧
+    readerLoop ext D bs = ([], .decErr .depthLimitExceeded) := by
+  have hne : bs ≠ [] := by
+    intro hb; subst hb; unfold decodeG at hsp; cases hsp
+  have he := decode_rejects_with_depth ext d' D bs v rest hD hsp hn
+  exact ⟨he, readerLoop_err ext D hne he⟩
+
 end Xt.Msgpack
